@@ -331,6 +331,11 @@ func Compare(e *Edge, o *Obs, sc Scale) string {
 		if o.ReqVar != "" {
 			return "REQUEST_BODY-set-but-body-phase-saw-no-body"
 		}
+	} else if strings.HasPrefix(e.Cfg.D.K, "ctlRe") {
+		// body access switched by ctl: bytes offered before the switch are not buffered, so only the length is specified
+		if len(o.ReqVar) != len(p.ReqBodyVar)*int(sc) {
+			return "REQUEST_BODY-length"
+		}
 	} else {
 		want := make([]byte, len(p.ReqBodyVar)*int(sc))
 		for i := range want {
